@@ -44,6 +44,7 @@ import (
 //	K="R": client response with status S (for >=1.20.3 about pack id P)
 //	K="X": remove pack id P (>=1.20.3 only)
 //	K="C": clear applied packs
+//	K="E": (write-error scenarios only) the next packet written to the client (P=0) / to the backend (P=1) is rejected
 type Op struct {
 	K string `json:"k"`
 	P int    `json:"p,omitempty"`
@@ -83,6 +84,11 @@ func (o Op) String() string {
 		return "remove(" + pn + ")"
 	case "C":
 		return "clear"
+	case "E":
+		if o.P == 1 {
+			return "fail-next-backend-write"
+		}
+		return "fail-next-client-write"
 	}
 	return "?"
 }
@@ -95,6 +101,8 @@ func (o Op) kind() string {
 		return "response"
 	case "X":
 		return "remove"
+	case "E":
+		return "write-error"
 	}
 	return "clear"
 }
@@ -138,12 +146,23 @@ type obs struct {
 type recPlayer struct {
 	proto proto.Protocol
 	o     *obs
-	be    *recBackend
+	be    *recBackend // nil: no backend connection in flight
+	// failNext: the next WritePacket is rejected (nothing recorded); failed: that has happened
+	failNext, failed bool
 }
 
-type recBackend struct{ o *obs }
+type recBackend struct {
+	o                *obs
+	failNext, failed bool
+}
+
+var errInjected = fmt.Errorf("c27: injected write error")
 
 func (b *recBackend) WritePacket(p proto.Packet) error {
+	if b.failNext {
+		b.failNext, b.failed = false, true
+		return errInjected
+	}
 	if r, ok := p.(*packet.ResourcePackResponse); ok {
 		b.o.back = append(b.o.back, statusName[int(r.Status)]+"|"+r.Hash)
 	} else {
@@ -154,6 +173,10 @@ func (b *recBackend) WritePacket(p proto.Packet) error {
 
 func (p *recPlayer) ID() uuid.UUID { return uuid.UUID{1} }
 func (p *recPlayer) WritePacket(pk proto.Packet) error {
+	if p.failNext {
+		p.failNext, p.failed = false, true
+		return errInjected
+	}
 	if r, ok := pk.(*packet.ResourcePackRequest); ok {
 		p.o.req = append(p.o.req, r.URL)
 	} else {
@@ -164,7 +187,12 @@ func (p *recPlayer) WritePacket(pk proto.Packet) error {
 func (p *recPlayer) BundleHandler() *resourcepack.BundleDelimiterHandler { return nil }
 func (p *recPlayer) State() *state.Registry                              { return state.Play }
 func (p *recPlayer) Protocol() proto.Protocol                            { return p.proto }
-func (p *recPlayer) BackendInFlight() proto.PacketWriter                 { return p.be }
+func (p *recPlayer) BackendInFlight() proto.PacketWriter {
+	if p.be == nil {
+		return nil // (a nil *recBackend in the interface would not be == nil)
+	}
+	return p.be
+}
 func (p *recPlayer) Disconnect(component.Component)                      { p.o.disc = true }
 
 // detMgr is a deterministic event.Manager: no subscribers, events are recorded and the `after`
@@ -197,6 +225,8 @@ type lane struct {
 
 type model struct {
 	modern         bool
+	noBackend      bool // no backend connection in flight: answers cannot be reported to anybody
+	hashless       bool // packs carry no hash
 	forcedPrompted bool // protocol >= 1.17: forced packs are prompted even after a decline
 	lanes          map[int]*lane
 	clientDeclined bool
@@ -257,7 +287,11 @@ func (m *model) advance(l *lane, o *obs) *verdict {
 			}
 			m.lastAD = "D"
 			got := take(&o.back, "DECLINED|"+head.url)
-			if head.backend && !got {
+			if !got && m.hashless && head.backend {
+				// the proxy's own report about an auto-declined pack carries the pack's hash: none here
+				got = take(&o.back, "DECLINED|")
+			}
+			if head.backend && !got && !m.noBackend {
 				return fail("backend-pack-auto-decline-not-reported", "backend-origin pack %s was auto-declined but the backend was not told", head.url)
 			}
 			if !head.backend && got {
@@ -304,7 +338,7 @@ func (m *model) step(op Op, in *inst, o *obs) (v *verdict, unsolicited bool) {
 		head := l.q[0]
 		st := statusName[op.S]
 		got := take(&o.back, st+"|"+head.url)
-		if head.backend && !got {
+		if head.backend && !got && !m.noBackend {
 			return fail("backend-pack-response-not-reported", "client answered %s for backend-origin pack %s but the backend got %v", st, head.url, o.back), false
 		}
 		if !head.backend && got {
@@ -393,6 +427,13 @@ type scenario struct {
 	ops    []Op
 	depthQ int
 	depthT int
+	// variants of the environment (one per scenario, so that the base scenarios keep their depth):
+	noBackend bool // the player has no backend connection in flight (BackendInFlight()==nil)
+	hashless  bool // packs carry no SHA-1 hash (it is optional)
+}
+
+func withWriteErrors(ops []Op) []Op {
+	return append(append([]Op(nil), ops...), Op{K: "E", P: 0}, Op{K: "E", P: 1})
 }
 
 func mkOps(modern bool, statuses []packet.ResponseStatus) []Op {
@@ -440,13 +481,28 @@ func scenarios(thorough bool) []scenario {
 	if thorough {
 		ms = modernStatusesAll
 	}
+	lo, mo := mkOps(false, legacyStatuses), mkOps(true, ms)
+	v1122, v117, v1202, v1203, v1214 := version.Minecraft_1_12_2.Protocol, version.Minecraft_1_17.Protocol, version.Minecraft_1_20_2.Protocol, version.Minecraft_1_20_3.Protocol, version.Minecraft_1_21_4.Protocol
 	return []scenario{
-		{"legacy-1.12.2", version.Minecraft_1_12_2.Protocol, mkOps(false, legacyStatuses), 6, 8},
-		{"legacy-1.16.4", version.Minecraft_1_16_4.Protocol, mkOps(false, legacyStatuses), 6, 8},
-		{"legacy117-1.17", version.Minecraft_1_17.Protocol, mkOps(false, legacyStatuses), 6, 8},
-		{"legacy117-1.20.2", version.Minecraft_1_20_2.Protocol, mkOps(false, legacyStatuses), 6, 8},
-		{"modern-1.20.3", version.Minecraft_1_20_3.Protocol, mkOps(true, ms), 4, 5},
-		{"modern-1.21.4", version.Minecraft_1_21_4.Protocol, mkOps(true, ms), 4, 5},
+		{name: "legacy-1.12.2", proto: v1122, ops: lo, depthQ: 6, depthT: 8},
+		{name: "legacy-1.16.4", proto: version.Minecraft_1_16_4.Protocol, ops: lo, depthQ: 6, depthT: 8},
+		{name: "legacy117-1.17", proto: v117, ops: lo, depthQ: 6, depthT: 8},
+		{name: "legacy117-1.20.2", proto: v1202, ops: lo, depthQ: 6, depthT: 8},
+		{name: "modern-1.20.3", proto: v1203, ops: mo, depthQ: 4, depthT: 5},
+		{name: "modern-1.21.4", proto: v1214, ops: mo, depthQ: 4, depthT: 5},
+		// no backend connection in flight: nothing can be reported, nothing may crash
+		{name: "legacy-1.12.2/no-backend", proto: v1122, ops: lo, depthQ: 5, depthT: 6, noBackend: true},
+		{name: "legacy117-1.20.2/no-backend", proto: v1202, ops: lo, depthQ: 5, depthT: 6, noBackend: true},
+		{name: "modern-1.21.4/no-backend", proto: v1214, ops: mo, depthQ: 3, depthT: 4, noBackend: true},
+		// packs without a hash
+		{name: "legacy-1.12.2/hashless", proto: v1122, ops: lo, depthQ: 5, depthT: 6, hashless: true},
+		{name: "legacy117-1.20.2/hashless", proto: v1202, ops: lo, depthQ: 5, depthT: 6, hashless: true},
+		{name: "modern-1.20.3/hashless", proto: v1203, ops: mo, depthQ: 4, depthT: 5, hashless: true},
+		{name: "modern-1.21.4/hashless", proto: v1214, ops: mo, depthQ: 3, depthT: 4, hashless: true},
+		// a packet to the client / to the backend is rejected once: from then on only "every call returns"
+		{name: "legacy-1.12.2/write-errors", proto: v1122, ops: withWriteErrors(lo), depthQ: 4, depthT: 5},
+		{name: "legacy117-1.17/write-errors", proto: v117, ops: withWriteErrors(lo), depthQ: 4, depthT: 5},
+		{name: "modern-1.21.4/write-errors", proto: v1214, ops: withWriteErrors(mo), depthQ: 3, depthT: 4},
 	}
 }
 
@@ -475,10 +531,13 @@ func urlsOf(infos []*resourcepack.Info) []string {
 func play(sc scenario, h []Op, x *sched.X, pr *playResult) {
 	o := &obs{}
 	pl := &recPlayer{proto: sc.proto, o: o}
-	pl.be = &recBackend{o: o}
+	if !sc.noBackend {
+		pl.be = &recBackend{o: o}
+	}
 	hd := resourcepack.NewHandler(pl, &detMgr{o: o})
 	modern := !sc.proto.Lower(version.Minecraft_1_20_3)
-	m := &model{modern: modern, forcedPrompted: !sc.proto.Lower(version.Minecraft_1_17), lanes: map[int]*lane{}, applied: map[int]*inst{}, pending: map[int]string{}}
+	degraded := false // a write was rejected: the statement only promises that calls return
+	m := &model{modern: modern, noBackend: sc.noBackend, hashless: sc.hashless, forcedPrompted: !sc.proto.Lower(version.Minecraft_1_17), lanes: map[int]*lane{}, applied: map[int]*inst{}, pending: map[int]string{}}
 	byURL := map[string]*inst{}
 	seq := 0
 	for i, op := range h {
@@ -486,6 +545,7 @@ func play(sc scenario, h []Op, x *sched.X, pr *playResult) {
 		*o = obs{}
 		var in *inst
 		var call func()
+		refusedFresh := ""
 		switch op.K {
 		case "Q":
 			seq++
@@ -495,10 +555,26 @@ func play(sc scenario, h []Op, x *sched.X, pr *playResult) {
 			if !modern {
 				info.ID = uuid.Nil
 			}
+			if sc.hashless {
+				info.Hash = nil
+			}
 			if op.B {
 				info.Origin = resourcepack.DownstreamServerOrigin
 			}
-			call = func() { _ = hd.QueueResourcePack(info) }
+			// the proxy's own two ways to a queued pack: Player.SendResourcePack = CheckAlreadyAppliedPack + Queue,
+			// a backend's request = HasPackAppliedByHash + Queue (session_backend_play.go)
+			call = func() {
+				if op.B {
+					if hd.HasPackAppliedByHash(info.Hash) {
+						refusedFresh = "HasPackAppliedByHash"
+						return
+					}
+				} else if err := hd.CheckAlreadyAppliedPack(info.Hash); err != nil {
+					refusedFresh = "CheckAlreadyAppliedPack"
+					return
+				}
+				_ = hd.QueueResourcePack(info)
+			}
 		case "R":
 			b := &resourcepack.ResponseBundle{Status: packet.ResponseStatus(op.S)}
 			if modern {
@@ -513,6 +589,14 @@ func play(sc scenario, h []Op, x *sched.X, pr *playResult) {
 			call = func() { hd.Remove(packIDs[op.P]) }
 		case "C":
 			call = func() { hd.ClearAppliedResourcePacks() }
+		case "E":
+			call = func() {
+				if op.P == 0 {
+					pl.failNext = true
+				} else if pl.be != nil {
+					pl.be.failNext = true
+				}
+			}
 		}
 		x.Log("op %d: %s", i, op)
 		panicked, val := vrt.Catch(call)
@@ -530,6 +614,49 @@ func play(sc scenario, h []Op, x *sched.X, pr *playResult) {
 			pr.out = bfs.Outcome{FailKey: op.kind() + "/unexpected-packet", FailDesc: fmt.Sprintf("op %d %s wrote %v", i, op, o.other)}
 			pr.done = true
 			return
+		}
+		if refusedFresh != "" {
+			pr.out = bfs.Outcome{FailKey: "queue/fresh-pack-reported-already-applied", FailDesc: fmt.Sprintf("op %d %s: pack %s (hashless=%v) has never been queued before, yet %s reports it as already applied: the proxy would not prompt it (and would tell a backend that the client loaded it)", i, op, in.url, sc.hashless, refusedFresh)}
+			pr.done = true
+			return
+		}
+		// the First* accessors (Player.AppliedResourcePack / PendingResourcePack) agree with the list accessors
+		var accErr string
+		if p2, v2 := vrt.Catch(func() {
+			fa, ap := hd.FirstAppliedPack(), hd.AppliedResourcePacks()
+			fp, pp := hd.FirstPendingPack(), hd.PendingResourcePacks()
+			has := func(l []*resourcepack.Info, e *resourcepack.Info) bool {
+				for _, x := range l {
+					if x == e {
+						return true
+					}
+				}
+				return false
+			}
+			if (fa == nil) != (len(ap) == 0) || (fa != nil && !has(ap, fa)) {
+				accErr = fmt.Sprintf("FirstAppliedPack()=%v but AppliedResourcePacks()=%v", fa != nil, urlsOf(ap))
+			}
+			if (fp == nil) != (len(pp) == 0) || (fp != nil && !has(pp, fp)) {
+				accErr = fmt.Sprintf("FirstPendingPack()=%v but PendingResourcePacks()=%v", fp != nil, urlsOf(pp))
+			}
+		}); p2 {
+			if x.Aborting() {
+				panic(v2)
+			}
+			pr.out = bfs.Outcome{FailKey: "accessor/panic", FailDesc: fmt.Sprintf("after op %d %s an accessor panicked: %v", i, op, v2)}
+			pr.done = true
+			return
+		}
+		if accErr != "" {
+			pr.out = bfs.Outcome{FailKey: "accessor/first-pack-inconsistent", FailDesc: fmt.Sprintf("after op %d %s: %s", i, op, accErr)}
+			pr.done = true
+			return
+		}
+		if pl.failed || (pl.be != nil && pl.be.failed) {
+			degraded = true
+		}
+		if degraded || op.K == "E" {
+			continue
 		}
 		disc := o.disc
 		v, unsolicited := m.step(op, in, o)
@@ -585,6 +712,15 @@ func play(sc scenario, h []Op, x *sched.X, pr *playResult) {
 		return strings.Join(s, ",")
 	}
 	key := m.key() + "|A" + acc(hd.AppliedResourcePacks()) + "|P" + acc(hd.PendingResourcePacks())
+	if degraded {
+		key = "after-write-error|" + key
+	}
+	key += fmt.Sprintf("|fn%v", pl.failNext)
+	if pl.be != nil {
+		key += fmt.Sprintf("%v", pl.be.failNext)
+		pl.be.failNext = false
+	}
+	pl.failNext = false
 	// The queues themselves are hidden inside the handler. Before two histories are merged the
 	// handler is drained by a fixed probe (final answers until nothing reacts any more) and what
 	// comes out — which queued instance is announced/prompted next, in which order — is part of
@@ -734,6 +870,12 @@ func classify(r *vrt.R, sc scenario, h []Op, out bfs.Outcome) {
 	}
 	if nq >= 2 {
 		r.Class("two-or-more-packs-queued")
+	}
+	if i := strings.IndexByte(sc.name, '/'); i >= 0 {
+		r.Class("variant:" + sc.name[i+1:])
+		if strings.HasPrefix(out.Key, "after-write-error|") {
+			r.Class("variant:write-errors:a-write-was-rejected")
+		}
 	}
 	if declined {
 		r.Class("history-with-client-decline")
